@@ -41,7 +41,8 @@ ASSUMPTIONS = [
 ]
 RULE = ("cases: real HyperbandScheduler(type in promotion, pasha, cost_promotion, rush_promotion) with random rung "
         "systems, 1-4 brackets shared or per-bracket, both modes, max_resource_attr on/off, checkpointing on/off, "
-        "1-6 concurrent scripted workers, dyadic metrics and costs (plus tie / constant streams), failures; "
+        "1-6 concurrent scripted workers, dyadic metrics and costs (plus tie / constant streams), failures; long PASHA runs with rung "
+        "levels far apart (reports between rung levels, where epsilon moves); "
         "distinct by sha256 of the spec; non-trivial iff at least one promotion (resume) happened")
 TYPES = ["promotion", "promotion", "pasha", "pasha", "cost_promotion", "rush_promotion"]
 
